@@ -53,13 +53,22 @@ Qed.
 Lemma zlist_eqb_eq' l1 l2 : list_eqb Z.eqb l1 l2 = true -> l1 = l2.
 Proof. apply list_eqb_eq. intros; apply Z.eqb_eq. Qed.
 
-Lemma agree_spec_barrier v c : t_barrier c = true -> agree v c = true -> spec_ok c = true.
+Lemma skipn_repeat_tail g b (r : Z) : (g <= b)%nat -> skipn (S b) (repeat 0 g ++ [r]) = [].
 Proof.
-  intros Hbar. unfold agree, spec_ok, agree_barrier, spec_barrier. rewrite Hbar.
+  intros H. apply skipn_all2. rewrite app_length, repeat_length. cbn. lia.
+Qed.
+
+Lemma agree_spec_barrier v c : t_barrier c = true -> 0 <= t_capF c -> 0 <= t_capI c -> agree v c = true -> spec_ok c = true.
+Proof.
+  intros Hbar HF HI. unfold agree, spec_ok, agree_barrier, spec_barrier. rewrite Hbar.
   intros H. apply andb_true_iff in H. destruct H as [Ho H]. rewrite Ho. cbn [andb].
   repeat (apply andb_true_iff in H; destruct H as [H ?]).
   apply zlist_eqb_eq' in H. rewrite H.
-  pose proof (grant_at_most_one 0 (t_reqs c) (r_init (t_capF c) (t_capI c))) as G. unfold model_granted.
-  destruct (grant_count 0 (t_reqs c) (r_init (t_capF c) (t_capI c))) as [|[|g]]; [| |lia];
-    cbn [repeat app skipn forallb andb]; repeat (apply andb_true_iff; split); assumption || reflexivity.
+  assert (G : (model_granted c <= barrier_bound c)%nat).
+  { unfold model_granted, barrier_bound. destruct (t_distinct c).
+    - pose proof (grant_pool_bound (req_kind c) (zids 0 (length (t_reqs c))) (r_init (t_capF c) (t_capI c))) as B.
+      unfold tickets, r_init in B. cbn [r_full r_incr] in B. revert B. destruct (req_kind c); intros B; [specialize (B HF) | specialize (B HI)]; unfold r_init; lia.
+    - apply grant_at_most_one. }
+  rewrite (skipn_repeat_tail _ _ _ G). cbn [forallb andb].
+  repeat (apply andb_true_iff; split); assumption || reflexivity.
 Qed.
